@@ -667,7 +667,7 @@ func c11Case(c *Ctx, id, stack string, items []string) {
 		}
 		if ref != "" && resOK(ref) && !resOK(out) {
 			failed = true
-			c.Oracle("FAIL %s call-fails-through-cache:%s step %d (%s) returns %s through the cache; the same call on the base alone: %s", id, sig, i, it, out, ref)
+			c.Oracle("FAIL %s call-fails-through-cache:%s:%s step %d (%s) returns %s through the cache; the same call on the base alone: %s", id, sig, strings.TrimPrefix(out, "err:"), i, it, out, ref)
 		}
 	}
 	c.Case("end")
@@ -826,6 +826,41 @@ func runC11(c *Ctx) {
 		}
 	}
 	c.Extra["flag_sweep"] = fmt.Sprintf("%d cases: OpenFile through the cache with every combination of O_WRONLY/O_RDWR/O_CREATE/O_EXCL/O_TRUNC/O_APPEND on a cached file, a file only in the base, a new name", nf)
+	// single calls through the cache on a tree (/d, /d/f, /g) that only the base has, that is partly cached (/g), fully cached
+	nm := 0
+	for _, stack := range cacheStacks {
+		for cached := 0; cached < 3; cached++ {
+			for _, call := range []string{"Chmod 2f64 448", "Chtimes 2f64 1000003000", "Rename 2f64 2f65", "RemoveAll 2f64", "Remove 2f67", "Rename 2f67 2f68",
+				"Chmod 2f67 384", "Chtimes 2f67 1000003000", "Remove 2f642f66", "Rename 2f642f66 2f68", "Mkdir 2f642f6e 493", "MkdirAll 2f642f6e2f6d 493",
+				"Create 2f67", "Create 2f642f6e", "OpenFile 2f67 1025 420", "OpenFile 2f67 1537 420", "OpenFile 2f6e 194 420", "OpenFile 2f67 2 0", "Open 2f64", "Open 2f67", "Stat 2f64"} {
+				items := []string{"0 - Mkdir 2f64 493", "0 9 Create 2f642f66", "0 - HWrite 9 616263", "0 - HClose 9", "0 8 Create 2f67", "0 - HWrite 8 78797a", "0 - HClose 8",
+					"0 - Chtimes 2f642f66 1000000000", "0 - Chtimes 2f67 1000000000", "0 - Chtimes 2f64 1000000000", "0 - Chtimes 2f 1000000000"}
+				if cached >= 1 {
+					items = append(items, "1 7 Create 2f67", "1 - HWrite 7 78797a", "1 - HClose 7", "1 - Chtimes 2f67 1000000000", "1 - Chtimes 2f 1000000000")
+				}
+				if cached == 2 {
+					items = append(items, "1 - Mkdir 2f64 493", "1 6 Create 2f642f66", "1 - HWrite 6 616263", "1 - HClose 6", "1 - Chtimes 2f642f66 1000000000", "1 - Chtimes 2f64 1000000000")
+				}
+				slot := "-"
+				if strings.HasPrefix(call, "Create") || strings.HasPrefix(call, "Open") {
+					slot = "0"
+				}
+				items = append(items, ". "+slot+" "+call)
+				if slot == "0" {
+					if strings.HasPrefix(call, "Open 2f64") {
+						items = append(items, ". - HReaddirnames 0 -1")
+					} else if !strings.HasPrefix(call, "Open ") {
+						items = append(items, ". - HWrite 0 5859")
+					}
+					items = append(items, ". - HClose 0")
+				}
+				items = append(items, "snap 0", "snap 1")
+				c11Case(c, fmt.Sprintf("m%d", nm), stack, items)
+				nm++
+			}
+		}
+	}
+	c.Extra["call_sweep"] = fmt.Sprintf("%d cases: one call through the cache on a tree the cache holds nothing / part / all of", nm)
 	c.Extra["handle_sweep"] = fmt.Sprintf("%d cases: every sequence of up to %d of 14 handle methods on an O_RDWR handle from CacheOnReadFs.OpenFile, file cached / not yet cached, duration 0 / 1000 s", k, depth)
 	n := 400
 	if c.Tier == "thorough" {
